@@ -12,7 +12,7 @@ Arguments N.eqb : simpl never.
 Arguments N.ltb : simpl never.
 Arguments N.leb : simpl never.
 
-Definition byte := N.
+Notation byte := N (only parsing).
 
 (* ---- byte classes (core u8 is_ascii_X) ---- *)
 Definition is_digit (b : byte) : bool := (48 <=? b) && (b <=? 57).
